@@ -132,8 +132,20 @@ func runC14(p *Prog, r *Report) {
 			binfo := f.Pkg.TypesInfo
 			ast.Inspect(f.Decl, func(n ast.Node) bool {
 				if rs, ok := n.(*ast.RangeStmt); ok && rng == nil && isFieldSel(binfo, rs.X, modPath+"/method", "Parameters", "RawArgs") {
-					rng = rs
-					bm = f
+					// the loop that emits `name type` parameters (not the argument loops of the call emitters)
+					emits := false
+					ast.Inspect(rs.Body, func(m ast.Node) bool {
+						if call, ok := m.(*ast.CallExpr); ok {
+							if ch, ok := chainOf(binfo, call); ok && ch.Root == nil && ch.Links[0].Name == "Id" && len(ch.Links) >= 2 && ch.Links[1].Name == "Add" {
+								emits = true
+							}
+						}
+						return true
+					})
+					if emits {
+						rng = rs
+						bm = f
+					}
 				}
 				return true
 			})
@@ -693,7 +705,6 @@ func c14R4(p *Prog, r *Report) {
 			r.Unresolved(spec.fn)
 			continue
 		}
-		info := fi.Pkg.TypesInfo
 		var scope ast.Node = fi.Decl
 		if spec.label != "" {
 			if si := cmdSwitch(fi); si != nil && si.labels[spec.label] != nil {
@@ -706,27 +717,11 @@ func c14R4(p *Prog, r *Report) {
 		site := spec.fn + "/" + spec.label + " ParseOpts"
 		var lit *ast.CompositeLit
 		var owner *FuncInfo
-		ast.Inspect(scope, func(n ast.Node) bool {
-			call, ok := n.(*ast.CallExpr)
-			if !ok || lit != nil {
-				return true
+		for _, lc := range loaderCallsIn(p, fi, scope, 1) {
+			if lit == nil {
+				lit, owner = resolveParseOpts(p, lc.owner, lc.opt, 0)
 			}
-			fn, ok := calleeObj(info, call).(*types.Func)
-			if !ok {
-				return true
-			}
-			idx := -1
-			switch {
-			case isFunc(fn, modPath+"/pkgload", "PackageLoader", "GetOne"), isFunc(fn, modPath+"/pkgload", "PackageLoader", "GetMatching"):
-				idx = 2
-			case isFunc(fn, modPath+"/method", "", "Parse"):
-				idx = 1
-			}
-			if idx >= 0 {
-				lit, owner = resolveParseOpts(p, fi, call.Args[idx], 0)
-			}
-			return true
-		})
+		}
 		if lit == nil {
 			r.Bad(site, p.PosStr(scope.Pos()), "no method.ParseOpts literal reaches the loader/parser call here")
 			continue
@@ -797,4 +792,52 @@ func c14R4(p *Prog, r *Report) {
 			r.OK(site, p.PosStr(lit.Pos()), fmt.Sprintf("%s, generics=%v, converter=%s, context regex of %s", spec.params, spec.typeParams, spec.converter, spec.ctxOwner))
 		}
 	}
+}
+
+// loaderCall is a call that hands a *method.ParseOpts to the loader/parser.
+type loaderCall struct {
+	call  *ast.CallExpr
+	owner *FuncInfo
+	opt   ast.Expr
+	name  string
+}
+
+// loaderCallsIn finds such calls below scope, and — one level deep — inside own helper
+// functions of the same package that are called below scope.
+func loaderCallsIn(p *Prog, fi *FuncInfo, scope ast.Node, depth int) []loaderCall {
+	info := fi.Pkg.TypesInfo
+	var direct []loaderCall
+	var helpers []*FuncInfo
+	ast.Inspect(scope, func(n ast.Node) bool {
+		call, ok := n.(*ast.CallExpr)
+		if !ok {
+			return true
+		}
+		fn, ok := calleeObj(info, call).(*types.Func)
+		if !ok {
+			return true
+		}
+		switch {
+		case isFunc(fn, modPath+"/pkgload", "PackageLoader", "GetOne"), isFunc(fn, modPath+"/pkgload", "PackageLoader", "GetMatching"):
+			direct = append(direct, loaderCall{call, fi, call.Args[2], fn.Name()})
+		case isFunc(fn, modPath+"/method", "", "Parse"):
+			direct = append(direct, loaderCall{call, fi, call.Args[1], fn.Name()})
+		default:
+			if fn.Pkg() == fi.Pkg.Types && !fn.Exported() {
+				if h := p.funcIdx[funcKey(fn)]; h != nil && h != fi {
+					helpers = append(helpers, h)
+				}
+			}
+		}
+		return true
+	})
+	if len(direct) > 0 || depth <= 0 {
+		return direct
+	}
+	// the call was moved into a helper of this scope
+	var out []loaderCall
+	for _, h := range helpers {
+		out = append(out, loaderCallsIn(p, h, h.Decl.Body, depth-1)...)
+	}
+	return out
 }
